@@ -22,8 +22,23 @@ pub struct MockStream<const SECURE: bool> {
     pub peer: SocketAddr,
 }
 
+/// bytes written by the peer become readable at this instant only (they sit in the socket buffer until then); the instant
+/// need not fall on a millisecond, which lets a message arrive strictly before a timer that the runtime fires in the same tick
+pub static READ_GATE: parking_lot::Mutex<Option<tokio::time::Instant>> = parking_lot::Mutex::new(None);
+
 impl<const SECURE: bool> AsyncRead for MockStream<SECURE> {
     fn poll_read(mut self: Pin<&mut Self>, cx: &mut Context<'_>, buf: &mut ReadBuf<'_>) -> Poll<io::Result<()>> {
+        let gate = *READ_GATE.lock();
+        if let Some(g) = gate {
+            if tokio::time::Instant::now() < g {
+                let w = cx.waker().clone();
+                tokio::spawn(async move {
+                    tokio::time::sleep_until(g).await;
+                    w.wake();
+                });
+                return Poll::Pending;
+            }
+        }
         Pin::new(&mut self.io).poll_read(cx, buf)
     }
 }
